@@ -79,6 +79,28 @@ def main():
             suite = False
         elif suite and ok and "--whole-suite" not in sys.argv and only_dp:
             target = "test/test_persistent_array.py test/test_persistent_dict.py"
+        else:
+            # scheme packages import nothing of each other (only schemes.interface and toolkit), and every scheme test
+            # file imports exactly one scheme package: a patch confined to schemes/<A>/<B>/ is visible to
+            # test_<A>_<B>.py only
+            pk = {tuple(t.split("/")[1:3]) for t in touched if t.startswith("schemes/") and t.count("/") >= 3}
+            if suite and ok and "--whole-suite" not in sys.argv and len(pk) == 1 and "interface" not in next(iter(pk)) and \
+                    all(t.startswith("schemes/%s/%s/" % next(iter(pk))) for t in touched):
+                a_, b_ = next(iter(pk))
+                cross = sh(f"grep -rlE 'schemes\\.{a_}\\.{b_}' {wt}/schemes {wt}/toolkit {wt}/test | "
+                           f"grep -v '^{wt}/schemes/{a_}/{b_}/' | grep -v 'test_{a_}_{b_}.py'").stdout.strip()
+                if not cross:
+                    scheme_target = f"test/test_sse_schemes/test_{a_}_{b_}.py"
+                    r = sh(f"cd {wt} && timeout 1800 /venv/bin/python -m pytest -q -p no:cacheprovider --timeout=900 "
+                           f"{scheme_target} 2>&1 | tail -5")
+                    mm1 = re.search(r"(\d+) passed", r.stdout)
+                    bad1 = re.search(r"(\d+) failed|error", r.stdout)
+                    ran.append(f"the only test file that imports the patched package ({scheme_target}; no other module "
+                               f"imports schemes.{a_}.{b_}) on patched tree -> {r.stdout.strip().splitlines()[-1][:80]}")
+                    if not mm1 or int(mm1.group(1)) != 5 or bad1:
+                        ok = False
+                        print("scheme test file outcome differs from baseline:", r.stdout[-200:])
+                    suite = False
         if suite and ok:
             r = sh(f"cd {wt} && timeout 2400 /venv/bin/python -m pytest -q -p no:cacheprovider -n 8 --dist loadfile "
                    f"--timeout=900 {target} 2>&1 | tail -40")
